@@ -531,6 +531,8 @@ func (e *arrEnv) iterate(k int) {
 		valid := lo <= hi && hi <= uint64(n)
 		if valid {
 			e.violation("C13", fmt.Sprintf("valid range [%d,%d) of %d rejected: %v", lo, hi, n, err))
+		} else if hx.ErrCategory(err) != "User" {
+			e.violation("C18", fmt.Sprintf("invalid range [%d,%d) of %d rejected with %s, not as a caller mistake", lo, hi, n, hx.ErrKind(err)))
 		}
 		return
 	}
@@ -541,6 +543,7 @@ func (e *arrEnv) iterate(k int) {
 	w.L("OBS ok:[%s]", strings.Join(parts, ","))
 	if lo > hi || hi > uint64(n) {
 		e.violation("C13", fmt.Sprintf("invalid range [%d,%d) of %d accepted", lo, hi, n))
+		e.violation("C18", fmt.Sprintf("%s: invalid range [%d,%d) of %d accepted instead of being rejected as a caller mistake", mode, lo, hi, n))
 		return
 	}
 	if uint64(len(got)) != hi-lo {
